@@ -195,3 +195,31 @@ def agg_flowing_to(body, locals_, variant, adt=None):
                     changed = True
     return [i for i, j, s in body.stmts() if s[1].get('op') == 'agg' and s[1].get('var') == variant
             and (adt is None or s[1].get('adt') == adt) and len(s[0]) == 1 and s[0][0] in tgt]
+
+
+def field_bool_edges(body, field):
+    """(true_edges, false_edges) of branches on a bool struct field 'name:Adt' read in body"""
+    key = '.' + field
+    te, fe = set(), set()
+    for i, j, s in body.stmts():
+        pl, rv = s[0], s[1]
+        if rv.get('op') == 'use' and len(pl) == 1:
+            src = op_place(rv['a'][0])
+            if src and any(x == key for x in src[1:] if isinstance(x, str)) and src[-1] == key:
+                t, f = prims.bool_local_edges(body, pl[0])
+                te |= t
+                fe |= f
+    for i, blk in enumerate(body.bbs):
+        t = blk['t']
+        if t['t'] == 'switch' and not blk.get('c'):
+            p = op_place(t['on'])
+            if p and len(p) > 1 and p[-1] == key:
+                for v, b in t['tg']:
+                    (fe if v == 0 else te).add((i, b))
+                te.add((i, t['else']))
+    return te, fe
+
+
+def bodies_of(F, owner):
+    """the named function's own body plus its nested closures/coroutines (focus only)"""
+    return [b for b in F.bodies.values() if b.focus and F.owner_fn(b.fn) == owner]
